@@ -19,6 +19,8 @@ func VsH_Plotter() {
 	inChan := make([]bool, n)    // a request for the space sits in newQueuedWorkSpaceCh (not yet seen by the plotter)
 	raced := make([]bool, n)     // a stop/remove was accepted while such a request was still in the channel
 	wantMine := make([]bool, n)
+	pending := make([]int, n)   // requests accepted while the space was still registered
+	everMine := make([]bool, n) // ... one of them was a mine request
 	firstMine := vsFork(2, "first.mine") == 1
 	if firstMine {
 		vsAssert(sk.MineWS(vsSids[0]) == nil, "initial-request-accepted")
@@ -105,6 +107,12 @@ func VsH_Plotter() {
 						asked[t] = true
 						wantMine[t] = a == int(engine.Mine)
 						if pre == engine.Registered {
+							// several requests for a space that has not started yet are all served in turn, each plot may
+							// complete or abort: which intent decides the final state is not fixed by the state machine
+							pending[t]++
+							everMine[t] = everMine[t] || a == int(engine.Mine)
+						}
+						if pre == engine.Registered {
 							inChan[t] = true // stays there until the running plot finishes
 						}
 					}
@@ -173,7 +181,9 @@ func VsH_Plotter() {
 			vsAssert(dbs[i].plotted, "ready-or-mining-only-if-table-complete")
 		}
 		if asked[i] && !gone[i] && dbs[i].plotted && dbs[i].plotCalls > 0 {
-			if wantMine[i] {
+			if pending[i] > 1 {
+				vsAssert(st == engine.Ready || (st == engine.Mining && everMine[i]), "completed-plot-after-several-requests-is-ready-or-mining-as-asked")
+			} else if wantMine[i] {
 				vsAssert(st == engine.Mining, "completed-plot-with-mine-intent-mines")
 			} else {
 				vsAssert(st == engine.Ready, "completed-plot-without-mine-intent-is-ready")
